@@ -192,7 +192,10 @@ def main():
     max_cpg = 0
     digests = {}
     for i, (l, r, raw) in enumerate(results):
-        if r is None and is_special(l) and kernel_rejects(l):
+        if r is None and raw == 'TIMEOUT':
+            rejected.add(l)
+            continue
+        if r is None and is_special(l) and kernel_rejects(l) == 'both':
             rejected.add(l)
             continue
         if r is None:
